@@ -87,11 +87,13 @@ TraceSpec == TraceInit /\ [][TraceNext]_<<m, l>>
 \* progress registers (one worker: the states are visited in the order of the lines)
 Track == TLCSet(1, l) /\ TLCSet(5, m)
 \* accepted iff the line register ran past the end; otherwise say what the specification expects for the first unexplained line
-Expect(ln, mm) == IF ln.op \in Calls THEN LET r == ApplyStep(mm, ln) IN [op |-> ln.op, spec_b |-> Flatten(r.m), spec_z |-> FlattenedSize(r.m), spec_ok |-> r.ok, code_b |-> ln.b, code_z |-> ln.z]
-                  ELSE IF ln.op = "New" THEN [op |-> ln.op, spec_b |-> Flatten([what |-> ln.w, fields |-> <<>>]), code_b |-> ln.b]
-                  ELSE IF ln.op \in {"Vec", "PyEcho"} THEN [op |-> ln.op, wellformed |-> WellFormed(ln.m), script_builds_content |-> IF "s" \in DOMAIN ln THEN Build(ln.s) = ln.m ELSE TRUE, spec_b |-> Flatten(ln.m), spec_z |-> FlattenedSize(ln.m), code_b |-> ln.b,
+\* (what is printed about a rejected line is clipped: serialising a sequence of tens of thousands of bytes to JSON overflows the Java stack)
+Clip(q) == IF Len(q) > 3000 THEN SubSeq(q, 1, 3000) ELSE q
+Expect(ln, mm) == IF ln.op \in Calls THEN LET r == ApplyStep(mm, ln) IN [op |-> ln.op, spec_b |-> Clip(Flatten(r.m)), spec_z |-> FlattenedSize(r.m), spec_ok |-> r.ok, code_b |-> Clip(ln.b), code_z |-> ln.z]
+                  ELSE IF ln.op = "New" THEN [op |-> ln.op, spec_b |-> Clip(Flatten([what |-> ln.w, fields |-> <<>>])), code_b |-> Clip(ln.b)]
+                  ELSE IF ln.op \in {"Vec", "PyEcho"} THEN [op |-> ln.op, wellformed |-> WellFormed(ln.m), script_builds_content |-> IF "s" \in DOMAIN ln THEN Build(ln.s) = ln.m ELSE TRUE, spec_b |-> Clip(Flatten(ln.m)), spec_z |-> FlattenedSize(ln.m), code_b |-> Clip(ln.b),
                                                            python |-> Common("python", ln.m), pynative |-> Common("pynative", ln.m), f38 |-> F38(ln.m), f39 |-> F39(ln.m), f45mini |-> F45mini(ln.m), f45micro |-> F45micro(ln.m), outcome |-> IF "o" \in DOMAIN ln THEN ln.o ELSE ln.same]
-                  ELSE IF ln.op = "Frames" THEN [op |-> ln.op, spec_stream |-> FrameStream(ln.bs), code_stream |-> ln.st, outcome |-> ln.o]
+                  ELSE IF ln.op = "Frames" THEN [op |-> ln.op, spec_stream |-> Clip(FrameStream(ln.bs)), code_stream |-> Clip(ln.st), outcome |-> ln.o]
                   ELSE [op |-> ln.op]
 Report == /\ PrintT(<<"maxline", TLCGet(1), "of", N, "statusdiffers", TLCGet(2), "pyok", TLCGet(3), "pynative", TLCGet(4), "F38", TLCGet(6), "F39", TLCGet(7), "F45mini", TLCGet(8), "F45micro", TLCGet(9)>>)
           /\ TLCGet(1) <= N => PrintT("@@" \o ToJson([line |-> TLCGet(1)] @@ Expect(TraceLog[TLCGet(1)], TLCGet(5))))
